@@ -84,6 +84,26 @@ func (fc *FuncContract) GoCheck(i int, argVars, resVars []string) (pre []string,
 				return &ast.ParenExpr{X: &ast.BinaryExpr{X: &ast.UnaryExpr{Op: token.NOT, X: &ast.ParenExpr{X: tr(n.Args[0], inOld)}}, Op: token.LOR, Y: &ast.ParenExpr{X: tr(n.Args[1], inOld)}}}
 			case "len", "cap":
 				return &ast.CallExpr{Fun: id, Args: []ast.Expr{tr(n.Args[0], inOld)}}
+			case "forall":
+				// forall(i, lo, hi, body): an executable loop; an index panic inside the body counts as false
+				iv, isIv := n.Args[0].(*ast.Ident)
+				if !isIv || len(n.Args) != 4 {
+					okAll = false
+					return n
+				}
+				saved, had := ren[iv.Name]
+				delete(ren, iv.Name)
+				pr := func(x ast.Expr) string {
+					var b bytes.Buffer
+					printer.Fprint(&b, token.NewFileSet(), x)
+					return b.String()
+				}
+				src := fmt.Sprintf("func() (ok bool) { defer func() { if recover() != nil { ok = false } }(); for %s := int(%s); %s < int(%s); %s++ { if !(%s) { return false } }; return true }()",
+					iv.Name, pr(tr(n.Args[1], inOld)), iv.Name, pr(tr(n.Args[2], inOld)), iv.Name, pr(tr(n.Args[3], inOld)))
+				if had {
+					ren[iv.Name] = saved
+				}
+				return &ast.BasicLit{Kind: token.STRING, Value: src} // printed verbatim
 			}
 			if intType(id.Name) != nil {
 				return &ast.CallExpr{Fun: id, Args: []ast.Expr{tr(n.Args[0], inOld)}}
